@@ -316,6 +316,11 @@ def r3(p, rep):
                 if m.name.endswith("frontend.ops") or m.name == "einx":
                     continue
                 ok = isinstance(n.value, ast.Name) and n.value.id == "backend" and m.name.endswith("frontend.ops")
+                # the table entry handed to the update_at lowering (`update_at(classical.set_at)`; the spelling
+                # `getattr(classical, name) for name in adapter.ops.update_at` reads the same after canonicalisation)
+                par_ = getattr(n, "_parent", None)
+                if isinstance(par_, ast.Call) and n in par_.args and norm(par_.func).split(".")[-1] in allowed_funcs:
+                    ok = True
                 rep.add("C09.R3", f"{where}:read(.{n.attr})", f"{m.rel}:{n.lineno}", ok, f"`{norm(n)}` read outside the update_at lowering")
             # getattr(classical, name) for name in adapter.ops.<family>
             if isinstance(n, ast.Call) and isinstance(n.func, ast.Name) and n.func.id == "getattr" and len(n.args) == 2 and isinstance(n.args[1], ast.Name):
@@ -474,6 +479,8 @@ def r5(p, rep):
         if isinstance(e, ast.Name):
             if e.id in mapping and host is not outer:
                 return ev(mapping[e.id], env)
+            if e.id not in env and e.id in env.get("__locals__", {}):
+                return ev(env["__locals__"][e.id], env)  # `num_args = len(args)` bound once in the wrapper
             return env[e.id]
         if isinstance(e, ast.Call) and isinstance(e.func, ast.Name) and e.func.id == "len" and len(e.args) == 1 and isinstance(e.args[0], ast.Name):
             return env["len:" + e.args[0].id]
@@ -502,7 +509,11 @@ def r5(p, rep):
             try:
                 for n_ in (1, 2, 3):
                     for k_ in range(0, 6):
-                        env = {nname: n_, "len:" + star: k_}
+                        once = {}
+                        for a_ in walk_no_nested(g.node):
+                            if isinstance(a_, ast.Assign) and len(a_.targets) == 1 and isinstance(a_.targets[0], ast.Name):
+                                once.setdefault(a_.targets[0].id, []).append(a_.value)
+                        env = {nname: n_, "len:" + star: k_, "__locals__": {k: v[0] for k, v in once.items() if len(v) == 1}}
                         reached = all(bool(ev(t, env)) == pol for t, pol in facts)
                         if reached != (k_ == n_):
                             ok = False
